@@ -73,8 +73,26 @@ func Run(bh Behaviour, seed int64) ([]Line, error) {
 			case "RT":
 				n := num(op, "n")
 				sb := make([]byte, n)
-				for j := range sb {
-					sb[j] = b64[rng.Intn(64)]
+				// payload alphabet: base64 (what the library feeds in), base64 with many '%' (format verbs), any
+				// printable ASCII (dashes, digits, percent signs, spaces), any byte
+				switch fmt.Sprint(op["alpha"]) {
+				case "pct":
+					for j := range sb {
+						sb[j] = b64[rng.Intn(64)]
+						if rng.Intn(6) == 0 {
+							sb[j] = "%%%sdvq!-"[rng.Intn(9)]
+						}
+					}
+				case "print":
+					for j := range sb {
+						sb[j] = byte(0x20 + rng.Intn(0x5f))
+					}
+				case "bytes":
+					rng.Read(sb)
+				default:
+					for j := range sb {
+						sb[j] = b64[rng.Intn(64)]
+					}
 				}
 				v := string(sb)
 				chunks, err := nodetls.BreakIntoNextProtos(pfx, v)
